@@ -111,6 +111,8 @@ def c03(tier, seed):
     from bounded import families as BF
     run.add_bounded("overload+tolerance-grid", BF.convergence_family(seed, _n(tier, 300, 6000)))
     run.add_bounded("solve, re-configure phases, solve vs fresh system", BF.reconfig_family(seed, _n(tier, 250, 6000), ["C03"]))
+    from bounded import hist
+    run.add_bounded("solve after edit histories (freed node slots, reports between edits) vs the rebuilt system", hist.random_history_family(seed, _n(tier, 250, 4000), _n(tier, 6, 10), ["C03"]))
     table_layer(run, "modest-drop systems converge with default settings", ["C03"], seed, _n(tier, 400, 20000), dict(p_table=0.3))
     run.notes.append("'a modest-drop steady state is always found' is a numerical-convergence statement: bounded only (every generated modest-drop system must converge)")
     return run.finish()
